@@ -37,6 +37,7 @@ var (
 	c13pTolerated = sim.RegStat("probe:c13-constructor-succeeded-despite-injection")
 	c13pEMFILE    = sim.RegStat("probe:c13-emfile-at-kth-allocation")
 	c13pBehaviour = sim.RegStat("probe:c13-peer-made-constructor-fail")
+	c13pReused    = sim.RegStat("probe:c13-handshake-fails-on-a-stream-that-had-a-session")
 	c13pReuse     = sim.RegStat("probe:c13-descriptor-number-reused-before-second-close")
 	c13pFdReused  = sim.RegStat("probe:c13-new-connection-dialed-from-a-handler-after-close")
 	c13pGC        = sim.RegStat("probe:c13-gc-with-operation-in-flight")
@@ -73,6 +74,10 @@ type c13Env struct {
 	manual   bool
 	base     [3]int
 	haveBase bool
+	// reuse: handshakes go through one Stream, which has had a complete
+	// session before each attempt (what survives a session is state too)
+	reuse bool
+	ws    *websocket.Stream
 }
 
 func (e *c13Env) begin() {
@@ -172,9 +177,16 @@ func c13Handshake(async bool, beh string) func(e *c13Env) (func(), error) {
 			end.OnData = srv.onData
 			e.srv = srv
 		})
-		ws, err := websocket.NewWebsocketStream(e.ioc, nil, websocket.RoleClient)
-		if err != nil {
-			sim.Bug("NewWebsocketStream: %v", err)
+		ws := e.ws
+		var err error
+		if !e.reuse || ws == nil {
+			ws, err = websocket.NewWebsocketStream(e.ioc, nil, websocket.RoleClient)
+			if err != nil {
+				sim.Bug("NewWebsocketStream: %v", err)
+			}
+			if e.reuse {
+				e.ws = ws
+			}
 		}
 		url := fmt.Sprintf("ws://127.0.0.1:%d/", port)
 		if async {
@@ -488,6 +500,27 @@ func runC13Enum(c *Ctx, v int) {
 			}
 		}
 		attempt("peer/environment: "+beh, b, beh != "stream-option-on-datagram-socket")
+	}
+	// 4. the same failures on a Stream that has had a session: every failing
+	// handshake is preceded by a successful one on the same object
+	if strings.HasPrefix(cs.name, "websocket-") {
+		async := cs.name == "websocket-AsyncHandshake"
+		e.reuse = true
+		const again = " on a Stream whose previous session was closed with CloseNextLayer"
+		for _, k := range c13Kinds {
+			for i := 1; i <= counts[k]; i++ {
+				attempt("no fault"+again, build, false)
+				w.Stat(c13pReused)
+				kk, ii := k, i
+				e.arm = func() { w.FailNth(kk, ii, c13Errno[kk]) }
+				attempt(fmt.Sprintf("%s call #%d fails with %v", k.String(), i, c13Errno[k])+again, build, false)
+			}
+		}
+		for _, beh := range cs.behaviours {
+			attempt("no fault"+again, build, false)
+			w.Stat(c13pReused)
+			attempt("peer/environment: "+beh+again, c13Handshake(async, beh), true)
+		}
 	}
 }
 
